@@ -155,7 +155,11 @@ func workerMain(rc *runCtx) {
 		}
 		idx, _ := strconv.Atoi(f[0])
 		dl, _ := strconv.ParseInt(f[1], 10, 64)
-		st := Explore(scs[idx], ExploreOpts{Deadline: time.UnixMilli(dl)})
+		maxStates, fb := 400_000, 2
+		if rc.Tier == "thorough" {
+			maxStates, fb = 3_000_000, 3
+		}
+		st := ExploreAuto(scs[idx], ExploreOpts{Deadline: time.UnixMilli(dl), MaxStates: maxStates, FallbackBound: fb})
 		b, _ := json.Marshal(st)
 		fmt.Fprintf(out, "%d %s\n", idx, b)
 		out.Flush()
@@ -173,6 +177,8 @@ type e1Summary struct {
 	Vacuous    []string
 	CapsHit    []string
 	Exhaustive bool
+	Bounded    []string
+	Unbounded  int
 	Findings   []Finding
 }
 
@@ -258,6 +264,11 @@ func runE1(rc *runCtx, scs []*Scenario) *e1Summary {
 			sum.Exhaustive = false
 			sum.CapsHit = append(sum.CapsHit, st.Scenario+": "+st.CapHit)
 		}
+		if st.BoundDone >= 0 {
+			sum.Bounded = append(sum.Bounded, fmt.Sprintf("%s: all schedules with <= %d preemptions", st.Scenario, st.BoundDone))
+		} else if st.Exhaustive {
+			sum.Unbounded++
+		}
 		if len(st.Outcomes) <= 1 && len(st.Violations) == 0 && scs[i].ExpectOutcomes > 1 {
 			sum.Vacuous = append(sum.Vacuous, st.Scenario)
 		}
@@ -312,6 +323,7 @@ func (sum *e1Summary) coverage(scs []*Scenario) map[string]interface{} {
 		"states": sum.States, "transitions": sum.Trans, "traces_validated_against_impl": sum.Execs,
 		"samples": samples, "exhaustive": sum.Exhaustive, "scenarios": len(scs), "complete_executions": sum.Complete,
 		"distinct_outcomes": sum.Outcomes, "vacuous_scenarios": sum.Vacuous, "caps_hit": sum.CapsHit,
+		"scenarios_explored_without_preemption_bound": sum.Unbounded, "scenarios_explored_with_preemption_bound": len(sum.Bounded), "preemption_bounded_scenarios": firstStrings(sum.Bounded, 40),
 		"max_depth": maxDepth, "max_preemptions_in_one_execution": maxPre, "scenarios_with_determinism_replay": det,
 		"rule": "every scenario = container + sequential prologue + 2-3 threads of 1-2 API calls; all schedules at the granularity of atomic/lock operations are enumerated depth-first with happens-before state caching and sleep sets (no preemption bound unless stated); a state is a Mazurkiewicz trace prefix; every execution runs the real code",
 	}
@@ -326,4 +338,11 @@ func numCPU() int {
 		n = 1
 	}
 	return n
+}
+
+func firstStrings(s []string, n int) []string {
+	if len(s) > n {
+		return append(append([]string{}, s[:n]...), fmt.Sprintf("... and %d more", len(s)-n))
+	}
+	return s
 }
